@@ -785,7 +785,8 @@ func checkGenerated(r genRec) (vs []engine.Violation) {
 	}
 	ms := genModel.ms
 	if ms == nil {
-		return nil
+		// the generator only produces valid YANG: a schema that does not compile is a harness defect
+		return []engine.Violation{{Key: "harness-generated-schema-does-not-compile", Witness: text, Detail: text, Harness: "generated", Replay: engine.JSON(r)}}
 	}
 	enc := encByName(r.Enc)
 	mk := func(key, detail string) {
@@ -831,12 +832,17 @@ func shapeOf(kids []*c18.S) string {
 }
 
 func runGenerated(c *engine.Ctx) {
-	sb, db := 3, 4
+	sb, db := 3, 5
 	if !c.Quick() {
-		sb, db = 4, 5
+		sb, db = 4, 6
 	}
 	all := c18.GenSchemas(sb)
-	c.Note(fmt.Sprintf("%d generated schemas of <= %d nodes x valid data trees of <= %d nodes x 3 encodings", len(all), sb, db))
+	// every schema a second time with names that are unique among siblings only
+	// (the first node of every container is called like the list keys)
+	for _, kids := range all[:len(all):len(all)] {
+		all = append(all, c18.RenameShared(kids))
+	}
+	c.Note(fmt.Sprintf("%d generated schemas of <= %d nodes (each with globally unique names and with names shared between levels) x valid data trees of <= %d nodes x 3 encodings", len(all), sb, db))
 	for gi, kids := range all {
 		if c.Expired() {
 			return
